@@ -20,8 +20,10 @@ import (
 // dispatch pool D (DESIGN §4). Patterns with interceptor rules are only
 // meaningful in I1/I2; in I0 the same text is a regexp, which is fine too.
 var poolStatic = []string{"/", "/a", "/ab", "/abc", "/b", "/a/b", "/a/b/c", "a"}
-var poolNamed = []string{"/{x}", "/{x}/b", "/{x}/bc", "/a/{x}", "/a/{x}/{y}", "/a/{x}/{y}/c", "/a/{x}-{y}", "/a/{x}-{y}.h", "/a{x}", "/{-x}/b", "/a/{-x}/{y}", "/a/{x}/", "/a/{z}/bd", "/{xy}/c", "/a/{xy}/d", "/a/{x}/bc"}
-var poolRegexp = []string{`/{x:\d+}`, `/a/{x:\d+}`, `/a/{x:\d+}.h`, `/a/{x:\d*}`, `/a/{x}/{y:\d+}`, `/a/{x:[ab]+}/b`, `/a/{-x:\d+}/c`, `/a/{x:\d+}/bc`, `/a/{x:\d}/q`, `/a/{x:\d+}/bd`, `/a/{-x:a|b}/c`, `/a/{x:a|ab}`}
+var poolNamed = []string{"/{x}", "/{x}/b", "/{x}/bc", "/a/{x}", "/a/{x}/{y}", "/a/{x}/{y}/c", "/a/{x}-{y}", "/a/{x}-{y}.h", "/a{x}", "/{-x}/b", "/a/{-x}/{y}", "/a/{x}/", "/a/{z}/bd", "/{xy}/c", "/a/{xy}/d", "/a/{x}/bc", "{x}.h"}
+var poolRegexp = []string{`/{x:\d+}`, `/a/{x:\d+}`, `/a/{x:\d+}.h`, `/a/{x:\d*}`, `/a/{x}/{y:\d+}`, `/a/{x:[ab]+}/b`, `/a/{-x:\d+}/c`, `/a/{x:\d+}/bc`, `/a/{x:\d}/q`, `/a/{x:\d+}/bd`, `/a/{-x:a|b}/c`, `/a/{x:a|ab}`,
+	// rules with more than one admissible capture before their literal: lazy quantifier, ordered alternation (leftmost-first, never widened)
+	`/{x:.+?}/b`, `/a/{x:a|ab}b`}
 var poolGreedy = []string{`/{x:.+}/b`}
 var poolIcpt = []string{"/a/{x:digit}", "/a/{x:digit}/b", "/{x:word}/b", "/a/{x:any}", "/a/{-x:digit}/c", "/a/{x:any}bb", "/a/{x:digit}/cd", "/a/{x:digit}/ce", "/a/{x:range}-{y}", "/a/{x:range}-b"}
 var indexBlock = []string{"/c", "/d", "/e", "/f", "/g"}
@@ -40,7 +42,7 @@ func poolD(ic string, tier string) []string {
 	return d
 }
 
-var paramValues = []string{"", "1", "12", "a", "b", "z", "1/b", "a/b", "a-b", "1.h", "ab", "1bb", "1-2", "1-12-b"}
+var paramValues = []string{"", "1", "12", "a", "b", "z", "1/b", "a/b", "a-b", "1.h", "ab", "1bb", "1-2", "1-12-b", "abb", "a/b/b", "*", "\u0661", "\u00e9"} // the last: a non-ASCII digit and letter
 
 // probeSet builds the finite probe set of a table.
 func probeSet(pats []*ref.Pattern, maxLen int) []string {
@@ -83,6 +85,9 @@ func probeSet(pats []*ref.Pattern, maxLen int) []string {
 		}
 	}
 	gen("/", maxLen-1)
+	for _, s := range []string{"*", "*a", "*/a", "*/", "**", "*.h"} { // only "*" itself is the server-wide target
+		add(s)
+	}
 	if noSlash {
 		gen("a", maxLen-2)
 		add("z")
@@ -240,7 +245,7 @@ func c02Class(base string, t *ref.Table, path string, o *hv.Obs, e Expect) strin
 	for _, p := range t.Parsed() {
 		for i := range p.Tokens {
 			tk := &p.Tokens[i]
-			if tk.Kind == ref.Regexp && i+1 < len(p.Tokens) {
+			if tk.Kind == ref.Regexp && i+1 < len(p.Tokens) && !strings.Contains(tk.Rule, "?") && !strings.Contains(tk.Rule, "|") {
 				if tk.Accepts(p.Tokens[i+1].Text[:1]) || tk.Accepts("x"+p.Tokens[i+1].Text[:1]) {
 					if o.Pattern == p.Src || base == "404-but-model-serves" || base == "wrong-params" {
 						return "greedy-regexp"
